@@ -62,12 +62,15 @@ PROPS["C03"] = dict(
           "x 6 compressibility classes (constant, zeros, random, periodic, sparse with literal runs of 0x7f..0x83 and "
           "zero runs of 0x82..0x87, text) x 7 single selectors; all 256 selector bytes; 3000 (quick) / 20000 synthetic "
           "(clen, dlen, method) triples around every ratio threshold for the acceptance arithmetic; ADPCM mono/stereo "
-          "length and interleaving. non-trivial = a framed unit that round-trips; distinct by FNV hash of method, class, "
+          "length and interleaving; for the sparse compressor model every string over {0, x} up to length 10 (12 thorough) "
+          "and 400 (3000) run-structured inputs (literal runs 1..0x182 with isolated zeros, zero runs 1..0x18b) compared "
+          "byte for byte. non-trivial = a framed unit that round-trips; distinct by FNV hash of method, class, "
           "length and payload length"),
     trusted_base=COMMON_TB + [
         "zlib (flate2), bzip2, lzma-rs, pklib/implode and the in-tree Huffman/ADPCM codecs are parameters of the model; "
         "their inversion on each explored input is observed by the oracle, not proved",
-        "the sparse *compressor* is not modelled; its output is checked against the proved decoder per run"],
+        "the sparse compressor and decoder are hand-written models of sparse.rs (token level for the compressor), "
+        "tied to the code by byte-for-byte comparison of compress output and decode results on every run"],
     assumptions=["Codec round trip dec(enc d) = d for third-party codecs (sampled)"],
 )
 
